@@ -10,6 +10,8 @@ import (
 type GweiList []Gwei
 
 func (a *GweiList) Deserialize(spec *Spec, dr *codec.DecodingReader) error {
+	// decode into a recycled object: drop what it holds (dr.List appends)
+	*a = (*a)[:0]
 	return dr.List(func() codec.Deserializable {
 		i := len(*a)
 		*a = append(*a, Gwei(0))
